@@ -151,3 +151,29 @@ Proof.
   destruct (emplace_back L v t) as [v1 e1]. cbn [fst snd] in *.
   split; [apply no_alloc_app; [exact H1|reflexivity]|]. split; [exact H2|exact H3].
 Qed.
+
+(* emplace(position) followed by erase(position) gives back the list (trivially relocatable
+   lists without VaryingSize parameter: the two operations the model covers there) *)
+Lemma remove_range_linsert i t (l : list tuple) : (i <= length l)%nat ->
+  remove_range i (S i) (linsert i t l) = l.
+Proof.
+  intros Hi. unfold remove_range, linsert.
+  rewrite firstn_app, firstn_firstn, Nat.min_id, firstn_length.
+  replace (Init.Nat.min i (length l)) with i by lia. rewrite Nat.sub_diag. cbn [firstn]. rewrite app_nil_r.
+  replace (S i) with (length (firstn i l) + 1)%nat by (rewrite firstn_length; lia).
+  rewrite skipn_app, firstn_length. replace (Init.Nat.min i (length l)) with i by lia.
+  rewrite skipn_all2 by (rewrite firstn_length; lia).
+  replace (i + 1 - i)%nat with 1%nat by lia. cbn [skipn app]. apply firstn_skipn.
+Qed.
+
+Theorem emplace_then_erase L : wf_plist L = true -> has_varying L = false -> all_triv L = true ->
+  forall v l offs, RepO L v l offs ->
+  forall i t, (i <= length l)%nat -> Z.of_nat (length l) < v_cap v ->
+  tuple_ok L (fixed_counts L (v_fixed v)) 0 t ->
+  Rep L (fst (erase L (fst (emplace_pos L v (Z.of_nat i) t)) (Z.of_nat i))) l.
+Proof.
+  intros Hwf Hv Ht v l offs R i t Hi Hcap Htup.
+  destruct (emplace_pos_rep L Hwf Hv v l offs R i t Hi Hcap Htup) as (R' & _ & _).
+  pose proof (erase_rep L Hwf Ht _ _ (Z.of_nat i) R' ltac:(rewrite linsert_length by exact Hi; lia)) as H.
+  rewrite Nat2Z.id, remove_range_linsert in H by exact Hi. exact H.
+Qed.
